@@ -1,19 +1,23 @@
 /-
 C13 — only one process at a time has the database open.
 
-Model: `Jamm/Model/Proc.lean` (exists-check, create / open, blocking exclusive advisory lock, map, read
-header, work, close), any number of processes, every interleaving of their steps.
+Model: `Jamm/Model/Proc.lean` (open the path, creating an empty file if there is none; blocking exclusive
+advisory lock; initialise the file under the lock if it is still empty; map, read header, work, close),
+any number of processes, every interleaving of their steps.
 Proved:
 * (a) at most one process is between lock-acquired and close, and whoever is inside has seen every
   commit made before it got in — for every initial file state and every schedule (`mutual_exclusion`);
-* (b, c) when the file exists and is initialised, no process ever fails, under every schedule
-  (`existing_file_never_fails`); an *existing* file is locked before it is mapped or read
-  (`existing_open_locks_first`, decided on the regenerated step order);
-* OPEN FINDING D12: a missing file is created and initialised before the lock is taken
-  (`create_path_not_locked`: the obligation is false on the regenerated order), and
-  `create_race_witness` is a two-process schedule in which the late opener gets the lock on the
-  uninitialised file and fails.  The correspondence run reproduces exactly this on the real code and
-  reports it as KNOWN-FINDING; everything else is reported as a violation.
+* (b, c) no process ever fails, for every initial file state (missing, created but empty, initialised) and
+  every schedule (`no_opener_ever_fails`; `existing_file_never_fails` is the case of an initialised file);
+  whoever is inside sees an initialised file (`inside_sees_initialised_file`); the file is locked before it
+  is mapped or read (`existing_open_locks_first`, decided on the regenerated step order);
+* the former finding D12 is REPAIRED: the path is opened with create-if-missing and never tested for
+  existence first (`open_outer_order`), and the lock is taken before a missing / empty file is initialised
+  (`create_path_locked`: the obligation holds on the regenerated order).  The witness is kept about the
+  order of the pinned release: there the obligation is false (`pinned_create_path_not_locked`) and
+  `create_race_witness_pinned` is a two-process schedule in which the late opener gets the lock on the
+  uninitialised file and fails; the repaired order passes the same schedule
+  (`repaired_order_passes_that_schedule`).
 Advisory-lock semantics (one holder, same host) are an assumption.
 -/
 import Jamm.Proofs.ProcLemmas
@@ -31,15 +35,37 @@ theorem existing_file_never_fails (n : Nat) (sched : List Nat) :
     ((ProcSys.initial n .ready).run sched).noFailure = true :=
   existing_file_no_failure n sched
 
+/-- whatever the initial file state (missing, created but empty, initialised), no opener ever fails -/
+theorem no_opener_ever_fails (n : Nat) (file : FileSt) (sched : List Nat) :
+    ((ProcSys.initial n file).run sched).noFailure = true :=
+  never_fails n file sched
+
+/-- whoever is inside the database sees an initialised file -/
+theorem inside_sees_initialised_file (n : Nat) (file : FileSt) (sched : List Nat) :
+    let s := (ProcSys.initial n file).run sched
+    (s.procs.any (fun p => match p with | .inside _ => true | _ => false)) = true → s.file = .ready :=
+  inside_sees_ready_file n file sched
+
 theorem existing_open_locks_first : OpenLocksBeforeMap Gen.openInner = true := by decide
 
-/-- the open path checks for the file, then initialises or opens it, then calls `DBInner::open` (lock) -/
-theorem open_outer_order : Gen.openOuter = [.existsCheck, .initFile, .openFile, .dbOpen] := by decide
+/-- the open path opens the file (creating an empty one if it is missing) without testing for existence,
+then calls `DBInner::open` (lock, initialise if empty, map) -/
+theorem open_outer_order : Gen.openOuter = [.openOrCreate, .dbOpen] := by decide
 
-/-- OPEN FINDING D12: the creating path does not hold the lock while it initialises the file -/
-theorem create_path_not_locked : OpenLocksBeforeInit Gen.initSteps Gen.openInner = false := by decide
+/-- D12 repaired: the lock is held while a missing / empty file is initialised -/
+theorem create_path_locked : OpenLocksBeforeInit Gen.openOuter Gen.initSteps Gen.openInner = true := by decide
 
-theorem create_race_witness : ((ProcSys.initial 2 .missing).run [0, 1, 1, 1]).noFailure = false :=
-  Jamm.create_race_witness
+/-- the pinned release did not hold the lock while it initialised the file -/
+theorem pinned_create_path_not_locked :
+    OpenLocksBeforeInit pinnedOpenOuter pinnedInitSteps pinnedOpenInner = false := by decide
+
+/-- former finding D12, about the pinned order: the late opener gets the lock on the uninitialised file -/
+theorem create_race_witness_pinned :
+    ((ProcSys.initial 2 .missing).runPinned [0, 1, 1, 1]).noFailure = false :=
+  Jamm.create_race_witness_pinned
+
+theorem repaired_order_passes_that_schedule :
+    ((ProcSys.initial 2 .missing).run [0, 1, 1, 1]).noFailure = true :=
+  Jamm.repaired_order_passes_that_schedule
 
 end Jamm.Props.C13
